@@ -56,8 +56,8 @@ PROPS = {
         'bounded_standins': [
             {'oracle': 'incan::emit_range', 'cases': 155, 'function': 'emit_range_call (call site of the runtime range) and the lowering of for loops over range',
              'bound': 'exhaustive over range(e), range(s, e), range(s, e, k) x {variable, 0, negative literal, 2, expression} per written argument; one fixed program shape; checks argument positions and the defaults 0 / 1 in the generated call'},
-            {'oracle': 'incan::emit_slice', 'cases': 279, 'function': 'parser index_or_slice/parse_slice, lowering of Index/Slice, emit_index_expr, emit_slice_expr',
-             'bound': 'exhaustive over str/list target x {omitted, variable, 0, -1} start x same end x {omitted, variable, -1, 2} step x compact/spaced spelling, plus 4 index reads, 4 element assignments (list_get_mut) a dict read (dict_get), a nested index `grid[r][c]`, a dict compound assignment and 8 reads whose object is a field or a call result (`b.xs[st]`, `word()[st:]`, ..); one fixed program shape; checks the helper and the position of every bound in the generated call'},
+            {'oracle': 'incan::emit_slice', 'cases': 281, 'function': 'parser index_or_slice/parse_slice, lowering of Index/Slice, emit_index_expr, emit_slice_expr',
+             'bound': 'exhaustive over str/list target x {omitted, variable, 0, -1} start x same end x {omitted, variable, -1, 2} step x compact/spaced spelling, plus 4 index reads, 4 element assignments (list_get_mut) a dict read (dict_get), a nested index `grid[r][c]`, a dict compound assignment 8 reads whose object is a field or a call result (`b.xs[st]`, `word()[st:]`, ..) and 2 programs with reads inside two f-strings; one fixed program shape; checks the helper and the position of every bound in the generated call'},
         ],
         'pins': [
             ('stdlib::str_index', {'s': 'héllo', 'i': 5}), ('stdlib::str_index', {'s': 'héllo', 'i': -6}), ('stdlib::str_index', {'s': 'héllo', 'i': -4}),
